@@ -131,7 +131,7 @@ def nt_recv_or_clnt(mode, case):
 
 
 def nt_conc_or_clnt(mode, case):
-    return nt_clnt(mode, case) if case.split(" ", 1)[0] in ("CL", "CI", "CT", "SOAK") else nt_conc(mode, case)
+    return nt_clnt(mode, case) if case.split(" ", 1)[0] in ("CL", "CI", "CT", "CF", "SOAK") else nt_conc(mode, case)
 
 
 def nt_srvseq_or_conc(mode, case):
@@ -279,7 +279,7 @@ PROPS = {
         "clauses": ["C10"],
         "modes": [{"name": "clnt", "harness": "clnt", "modelcheck": "clnt"},
                   {"name": "clntlog", "harness": "clntlog", "modelcheck": "clntref"}],
-        "rule": "writefail: only the write direction of the transport fails (Write returns an error, Read keeps blocking): every outstanding and every later call must return an error. scripted sessions with 0..4 outstanding calls: the server-to-client stream cut after every byte offset (quick: every 7th), EOF, garbage / oversize (> 8*msize) / undersize frames, a reply with an unknown tag, Unmount during calls; a later call after each failure; callers held by the hook rpcnb.linked between linking their request and handing it to the send goroutine while the failure strikes. Every call must return within 3 s. Oracle: no call hangs, a call succeeds only if its complete reply was delivered, replies complete before the failure are delivered, later calls are refused; correspondence: canonical schedule through the Coq client LTS. Non-trivial: >= 2 calls; distinct by content.",
+        "rule": "CF cases (since round 8): 1..4 requests through the pipelined Tag client (Clnt.TagAlloc), 0..n-1 of them answered, then the reply stream ends: the answered ones come back with their replies, every other one comes back with an error, none hangs and the process survives (oracle only: the client LTS has no Tag layer). writefail: only the write direction of the transport fails (Write returns an error, Read keeps blocking): every outstanding and every later call must return an error. scripted sessions with 0..4 outstanding calls: the server-to-client stream cut after every byte offset (quick: every 7th), EOF, garbage / oversize (> 8*msize) / undersize frames, a reply with an unknown tag, Unmount during calls; a later call after each failure; callers held by the hook rpcnb.linked between linking their request and handing it to the send goroutine while the failure strikes. Every call must return within 3 s. Oracle: no call hangs, a call succeeds only if its complete reply was delivered, replies complete before the failure are delivered, later calls are refused; correspondence: canonical schedule through the Coq client LTS. Non-trivial: >= 2 calls; distinct by content.",
         "level_text": "Coq theorems (Props/C10.v) over the client LTS with its shutdown path (clnt.err, close(done), detaching the pending list, reporting the error to each pending request): in EVERY reachable state after a failure, while some call has not returned the client can take a step by itself and every such step decreases a bound, hence all outstanding and later calls return (no deadlock, no livelock); later calls are refused without touching the transport; success implies a complete reply frame was received; a reply matched before the failure is never replaced by the connection error; the receive loop turns bad frames into a failure and never reads with an empty buffer. 'Within bounded time' is rendered as a bound on the client's own steps.",
         "level_note": "Trusted: Coq kernel; translator; extraction + OCaml driver; Go harness with the hook rpcnb.linked. Wall-clock bounds are only measured by the harness (3 s deadline); Unmount is exercised by the oracle only (it sets clnt.err from the caller's goroutine, which the LTS models as a failure noticed by recv). Print Assumptions: closed under the global context.",
     },
